@@ -506,8 +506,7 @@ theorem execMethodSize_sim (c : Ctx) {item : ItemK} (hS : SimI item) (s : St) (n
   unfold execMethodSize
   split
   · exact executeNextItem_sim c hS _ _ _ _ hv
-  · simp only [silenceSt_ignoreSE]
-    exact sim_ite (fun _ => returnVerboseError_sim _ _ hv) (fun _ => executeNextItem_sim c hS _ _ _ _ hv)
+  · exact sim_ite (fun _ => structural_sim s f hv) (fun _ => executeNextItem_sim c hS _ _ _ _ hv)
 
 theorem execConvMethod_sim (c : Ctx) {item : ItemK} {any : AnyK} (hS : SimI item) (hSA : SimA any) (s : St)
     (n : Node) (nx : Option Node) (v : Item) (f : Found) (unwrap : Bool) (conv : Item → Conv)
@@ -948,7 +947,7 @@ theorem execArrayIndex_sim (c : Ctx) {item : ItemK} (hI : GoodI item) (hS : SimI
   unfold execArrayIndex
   generalize arrayOf c v = o
   cases o with
-  | none => exact returnVerboseError_sim _ _ hv
+  | none => exact structural_sim s f hv
   | some xs =>
     have h0 : IInv s f ⟨{ s with innermost := xs.length }, f, .notFound, none, none⟩ := by
       refine ⟨fun r hr => by simp at hr, fun _ => ⟨⟨?_, fun h => by simpa [restoreInn] using h⟩, Shape.refl f⟩⟩
